@@ -389,3 +389,286 @@ Proof.
   cbv beta iota zeta. change (quoted_str_split (B "shutdown no-wait")) with [B "shutdown"; B "no-wait"].
   unfold request_name, request_args. cbn [tl]. rewrite Hp. reflexivity.
 Qed.
+
+(** ================================================================================================
+    Strengthening: the handler with every panic explicit, and the listener with many connections
+    ================================================================================================ *)
+
+Definition status_ok (d : bytes) : Prop :=
+  starts_with (B "ok") d = true \/ starts_with (B "error") d = true.
+
+(** no plugin of the table panics or fails outside its [PluginResponse] *)
+Definition plugins_total {S} (ps : plugins_chk S) : Prop :=
+  forall name p, lookup_chk name ps = Some p -> forall args s, exists r, p args s = Ok r.
+
+(** ---- the handler's own partial operations never fail ---------------------------------------------- *)
+
+Lemma frame_chk_ok prepend data : frame_chk prepend data = Ok (frame prepend data).
+Proof.
+  unfold frame_chk, frame, slice_chk, slice_get.
+  set (d := match data with Some d => d | None => [] end).
+  set (len := (length prepend + (if is_empty d then 0 else 1))%nat).
+  assert (H : Nat.leb (length prepend) (length (repeat c_space len ++ d)) = true).
+  { apply Nat.leb_le. rewrite app_length, repeat_length. unfold len. lia. }
+  cbn [Nat.leb andb]. rewrite H.
+  rewrite slice_length; [|lia|apply Nat.leb_le; exact H].
+  rewrite Nat.sub_0_r, Nat.eqb_refl. reflexivity.
+Qed.
+
+Lemma lookup_lift S (ps : plugins S) name :
+  lookup_chk name (lift_plugins ps) = option_map lift_plugin (lookup_plugin name ps).
+Proof.
+  unfold lift_plugins. induction ps as [|[k p] r IH]; [reflexivity|].
+  cbn [map fst snd lookup_chk lookup_plugin]. destruct (beq k name); [reflexivity|exact IH].
+Qed.
+
+Lemma handle_chk_lift S (ps : plugins S) req s :
+  handle_chk (lift_plugins ps) req s = Ok (handle ps req s).
+Proof.
+  unfold handle_chk, handle. destruct (utf8_decode req) as [line|]; [|reflexivity].
+  cbv zeta. rewrite lookup_lift. destruct (lookup_plugin _ ps) as [p|]; [|reflexivity].
+  cbn [option_map]. unfold lift_plugin. cbn [obind]. destruct (p _ s) as [r s'] eqn:E. cbn [fst snd].
+  destruct (pr_kind r); cbv beta iota zeta; rewrite frame_chk_ok; reflexivity.
+Qed.
+
+Lemma handle_chk_total S (ps : plugins_chk S) req s :
+  plugins_total ps ->
+  exists hr s', handle_chk ps req s = Ok (hr, s') /\ status_ok (hr_data hr).
+Proof.
+  intros T. unfold handle_chk. destruct (utf8_decode req) as [line|].
+  2:{ eexists _, _. split; [reflexivity|]. right. reflexivity. }
+  cbv zeta. destruct (lookup_chk _ ps) as [p|] eqn:L.
+  2:{ eexists _, _. split; [reflexivity|]. right. reflexivity. }
+  destruct (T _ _ L (request_args (quoted_str_split line)) s) as [[r s'] E]. rewrite E. cbn [obind fst snd].
+  destruct (pr_kind r) as [d|d]; cbv beta iota zeta; rewrite frame_chk_ok; cbn [obind];
+    eexists _, _; (split; [reflexivity|]); cbn [hr_data].
+  - left. apply frame_starts.
+  - right. apply frame_starts.
+Qed.
+
+(** A request that is not UTF-8 or names no plugin gets the same [error] reply in every state and
+    changes nothing: whenever its handler is scheduled among the other connections' events, the
+    client sees the same bytes. *)
+Lemma rejected_reply_constant S (ps : plugins_chk S) req :
+  (utf8_decode req = None \/
+   exists line, utf8_decode req = Some line /\ lookup_chk (request_name (quoted_str_split line)) ps = None) ->
+  exists d, starts_with (B "error") d = true /\
+            forall s, handle_chk ps req s = Ok ({| hr_data := d; hr_close := false |}, s).
+Proof.
+  intros [H|(line & H & L)].
+  - exists msg_binary. split; [reflexivity|]. intros s. unfold handle_chk. rewrite H. reflexivity.
+  - exists msg_not_found. split; [reflexivity|]. intros s. unfold handle_chk. rewrite H. cbv zeta. rewrite L. reflexivity.
+Qed.
+
+(** ---- [String::remove(0)] in [with_ping] ------------------------------------------------------------- *)
+
+Lemma str_remove_first_ascii b t : b < 128 -> str_remove_chk 0 (b :: t) = Ok t.
+Proof.
+  intros Hb. unfold str_remove_chk, str_slice_chk.
+  change (length (b :: t)) with (Datatypes.S (length t)).
+  cbn [Nat.leb is_char_boundary andb].
+  change (length (b :: t)) with (Datatypes.S (length t)).
+  rewrite Nat.compare_refl. unfold slice. cbn [Nat.sub skipn firstn].
+  unfold char_width. destruct (N.ltb_spec b 128) as [_|H]; [|lia].
+  reflexivity.
+Qed.
+
+Lemma utf8_encode_cons_space r : utf8_encode (c_space :: r) = c_space :: utf8_encode r.
+Proof. reflexivity. Qed.
+
+Lemma ping_fold_bytes_gen args : forall acc,
+  fold_left (fun acc arg => acc ++ [c_space] ++ utf8_encode (encode_quoted_str arg)) args (utf8_encode acc)
+  = utf8_encode (fold_left (fun acc arg => acc ++ [c_space] ++ encode_quoted_str arg) args acc).
+Proof.
+  induction args as [|a r IH]; intros acc; [reflexivity|].
+  cbn [fold_left]. rewrite <- IH. f_equal. rewrite !utf8_encode_app. reflexivity.
+Qed.
+
+Lemma ping_fold_bytes_eq args : ping_fold_bytes args = utf8_encode (ping_fold args).
+Proof. exact (ping_fold_bytes_gen args []). Qed.
+
+Lemma ping_data_chk_ok args : ping_data_chk args = Ok (utf8_encode (ping_data args)).
+Proof.
+  unfold ping_data_chk. rewrite ping_fold_bytes_eq. unfold ping_data, ping_fold.
+  rewrite fold_push_encoded. cbn [app].
+  destruct args as [|a r]; [reflexivity|].
+  cbn [flat_map]. unfold sp_enc at 1 3. cbn [app].
+  rewrite utf8_encode_cons_space. cbn [is_empty].
+  apply str_remove_first_ascii. reflexivity.
+Qed.
+
+Lemma ping_plugin_chk_ok S args (s : S) : ping_plugin_chk args s = Ok (ping_plugin args s).
+Proof. unfold ping_plugin_chk, ping_plugin. rewrite ping_data_chk_ok. reflexivity. Qed.
+
+(** ---- cutting a [&str] at a byte count is not total ------------------------------------------------ *)
+
+Lemma log_truncation_panics :
+  exists (data : bytes) (line : str),
+    utf8_decode data = Some line /\ (length data > 64)%nat /\ log_truncate_chk 64 data = Panic.
+Proof.
+  exists (repeat 97 63 ++ [195; 182; 122]), (repeat 97 63 ++ [246; 122]).
+  split; [vm_compute; reflexivity|]. split; [vm_compute; lia|vm_compute; reflexivity].
+Qed.
+
+(** ... while at a char boundary it is what [slice] is *)
+Lemma str_slice_chk_boundary lo hi s :
+  (lo <= hi)%nat -> is_char_boundary s lo = true -> is_char_boundary s hi = true ->
+  str_slice_chk lo hi s = Ok (slice lo hi s).
+Proof.
+  intros H1 H2 H3. unfold str_slice_chk. rewrite H2, H3.
+  destruct (Nat.leb_spec lo hi); [reflexivity|lia].
+Qed.
+
+(** ---- the table of the fixture ---------------------------------------------------------------------------- *)
+
+Lemma plugins_total_forall S (ps : plugins_chk S) :
+  Forall (fun kp => forall args s, exists r, snd kp args s = Ok r) ps -> plugins_total ps.
+Proof.
+  intros F name p. induction F as [|[k q] r Hq F IH]; cbn [lookup_chk]; [discriminate|].
+  destruct (beq k name); [|exact IH]. intros E. inversion E; subst. exact Hq.
+Qed.
+
+Lemma lift_plugins_forall S (ps : plugins S) :
+  Forall (fun kp => forall args s, exists r, snd kp args s = Ok r) (lift_plugins ps).
+Proof.
+  unfold lift_plugins. induction ps as [|[k p] r IH]; cbn [map]; constructor; [|exact IH].
+  intros args s. eexists. reflexivity.
+Qed.
+
+Lemma fx_plugins_chk_total : plugins_total fx_plugins_chk.
+Proof.
+  apply plugins_total_forall. unfold fx_plugins_chk.
+  apply Forall_app. split; [|apply lift_plugins_forall].
+  repeat constructor; intros args s; cbn [snd].
+  - eexists. reflexivity.
+  - eexists. reflexivity.
+  - rewrite ping_plugin_chk_ok. eexists. reflexivity.
+Qed.
+
+(** ---- the listener with any number of connections ------------------------------------------------------------- *)
+
+Lemma conn_get_set_same k v cs : conn_get k (conn_set k v cs) = Some v.
+Proof.
+  induction cs as [|[i p] r IH]; cbn [conn_set conn_get].
+  - rewrite N.eqb_refl. reflexivity.
+  - destruct (N.eqb_spec i k) as [->|Hn]; cbn [conn_get].
+    + rewrite N.eqb_refl. reflexivity.
+    + destruct (N.eqb_spec i k); [contradiction|exact IH].
+Qed.
+
+Lemma conn_get_set_other j k v cs : j <> k -> conn_get j (conn_set k v cs) = conn_get j cs.
+Proof.
+  intros Hjk. induction cs as [|[i p] r IH]; cbn [conn_set conn_get].
+  - destruct (N.eqb_spec k j); [congruence|reflexivity].
+  - destruct (N.eqb_spec i k) as [->|Hn]; cbn [conn_get].
+    + destruct (N.eqb_spec k j); [congruence|reflexivity].
+    + destruct (N.eqb_spec i j); [reflexivity|exact IH].
+Qed.
+
+Section LtsProofs.
+  Variable S : Type.
+  Variable ps : plugins_chk S.
+  Variable blocked : bytes -> S -> bool.
+  Variable env_step : N -> S -> S * bool.
+  Notation step := (lstep ps blocked env_step).
+  Notation runl := (lrun ps blocked env_step).
+
+  (** An event of another connection, or of the environment, never reads or writes this
+      connection's entry. *)
+  Lemma lstep_other (st : lts_state S) ev k :
+    event_conn ev <> Some k -> conn_get k (l_conns (step st ev)) = conn_get k (l_conns st).
+  Proof.
+    intros H. destruct ev as [i|i b|i|i|e]; cbn [lstep event_conn] in *.
+    - destruct (conn_get i (l_conns st)); [reflexivity|].
+      cbn [with_conn l_conns]. apply conn_get_set_other. congruence.
+    - destruct (conn_get i (l_conns st)) as [[| | |]|]; try reflexivity.
+      cbn [with_conn l_conns]. apply conn_get_set_other. congruence.
+    - destruct (conn_get i (l_conns st)) as [[| | |]|]; try reflexivity.
+      cbn [with_conn l_conns]. apply conn_get_set_other. congruence.
+    - destruct (conn_get i (l_conns st)) as [[| |req|]|]; try reflexivity.
+      destruct (blocked req (l_env st)); [reflexivity|].
+      destruct (handle_chk ps req (l_env st)) as [[hr s']| |]; cbn [with_conn l_conns];
+        apply conn_get_set_other; congruence.
+    - destruct (env_step e (l_env st)). reflexivity.
+  Qed.
+
+  Lemma lrun_others evs : forall (st : lts_state S) k,
+    Forall (fun ev => event_conn ev <> Some k) evs ->
+    conn_get k (l_conns (runl st evs)) = conn_get k (l_conns st).
+  Proof.
+    unfold lrun. induction evs as [|ev r IH]; intros st k F; [reflexivity|].
+    inversion F as [|? ? Hev Hr]; subst. cbn [fold_left]. rewrite IH by exact Hr.
+    apply lstep_other. exact Hev.
+  Qed.
+
+  (** A complete request whose handler is not blocked is answered by its own step, whatever
+      state the other connections are in; the step touches no other connection. *)
+  Lemma handle_step_answers (st : lts_state S) k req :
+    plugins_total ps ->
+    conn_get k (l_conns st) = Some (PComplete req) ->
+    blocked req (l_env st) = false ->
+    (exists d, conn_get k (l_conns (step st (EHandle k))) = Some (PReplied d) /\ status_ok d) /\
+    (forall j, j <> k -> conn_get j (l_conns (step st (EHandle k))) = conn_get j (l_conns st)).
+  Proof.
+    intros T Hk Hb. split.
+    - cbn [lstep]. rewrite Hk, Hb.
+      destruct (handle_chk_total S ps req (l_env st) T) as (hr & s' & E & St). rewrite E.
+      cbn [l_conns]. exists (hr_data hr). split; [apply conn_get_set_same|exact St].
+    - intros j Hj. apply lstep_other. cbn [event_conn]. congruence.
+  Qed.
+
+  Lemma never_wedged (st : lts_state S) evs k req :
+    plugins_total ps ->
+    conn_get k (l_conns st) = Some (PComplete req) ->
+    Forall (fun ev => event_conn ev <> Some k) evs ->
+    let st1 := runl st evs in
+    conn_get k (l_conns st1) = Some (PComplete req) /\
+    (blocked req (l_env st1) = false ->
+     let st2 := step st1 (EHandle k) in
+     (exists d, conn_get k (l_conns st2) = Some (PReplied d) /\ status_ok d) /\
+     (forall j, j <> k -> conn_get j (l_conns st2) = conn_get j (l_conns st1))).
+  Proof.
+    intros T Hk F. cbn zeta.
+    assert (H1 : conn_get k (l_conns (runl st evs)) = Some (PComplete req))
+      by (rewrite lrun_others by exact F; exact Hk).
+    split; [exact H1|]. intros Hb. exact (handle_step_answers (runl st evs) k req T H1 Hb).
+  Qed.
+
+  (** While the listener listens, a new connection is accepted and its request is read to the
+      end, whatever the other connections are doing; this changes neither the listener, nor the
+      state, nor any other connection. *)
+  Lemma accept_not_blocked (st : lts_state S) k req :
+    l_listener st = Listening -> conn_get k (l_conns st) = None ->
+    let st1 := runl st [EConnect k; ESend k req; EFin k] in
+    conn_get k (l_conns st1) = Some (PComplete req) /\ l_listener st1 = Listening /\ l_env st1 = l_env st /\
+    (forall j, j <> k -> conn_get j (l_conns st1) = conn_get j (l_conns st)).
+  Proof.
+    intros Hl Hk. cbn zeta. unfold lrun. cbn [fold_left].
+    assert (E1 : step st (EConnect k) = with_conn st k (POpen [])).
+    { cbn [lstep]. rewrite Hk, Hl. reflexivity. }
+    rewrite E1.
+    assert (E2 : step (with_conn st k (POpen [])) (ESend k req) = with_conn (with_conn st k (POpen [])) k (POpen req)).
+    { cbn [lstep with_conn l_conns]. rewrite conn_get_set_same. reflexivity. }
+    rewrite E2.
+    assert (E3 : step (with_conn (with_conn st k (POpen [])) k (POpen req)) (EFin k)
+                 = with_conn (with_conn (with_conn st k (POpen [])) k (POpen req)) k (PComplete req)).
+    { cbn [lstep with_conn l_conns]. rewrite conn_get_set_same. reflexivity. }
+    rewrite E3. cbn [with_conn l_conns l_listener l_env].
+    split; [apply conn_get_set_same|]. split; [exact Hl|]. split; [reflexivity|].
+    intros j Hj. rewrite !conn_get_set_other by exact Hj. reflexivity.
+  Qed.
+
+  (** What clients do (connect, send, half-close) never closes the listener and never changes
+      the state: only a response with [close] or the environment does. *)
+  Lemma client_events_keep_listener (st : lts_state S) ev :
+    (forall k, ev <> EHandle k) -> (forall e, ev <> EEnv e) ->
+    l_listener (step st ev) = l_listener st /\ l_env (step st ev) = l_env st.
+  Proof.
+    intros H1 H2. destruct ev as [i|i b|i|i|e]; cbn [lstep].
+    - destruct (conn_get i (l_conns st)); split; reflexivity.
+    - destruct (conn_get i (l_conns st)) as [[| | |]|]; split; reflexivity.
+    - destruct (conn_get i (l_conns st)) as [[| | |]|]; split; reflexivity.
+    - exfalso. apply (H1 i). reflexivity.
+    - exfalso. apply (H2 e). reflexivity.
+  Qed.
+End LtsProofs.
